@@ -207,6 +207,9 @@ func (m *TlvModel) GenReadFrom(buf *bytes.Buffer) error {
 						}
 						handled = true
 						err = reader.Skip(int(l))
+						{{- if (eq $.Model.Ordered true)}}
+						progress --
+						{{- end}}
 					}
 					if err == nil && !handled {
 						{{- if (eq $.Model.Ordered true)}}
